@@ -636,4 +636,105 @@ def r5_5(ctx):
     ctx.check(norm(tbl) == "{_codepoint: None for _codepoint in STRIP_CONTROL_CODES}", "control:_CONTROL_TRANSLATE", norm(tbl), f"{cm.relpath}:{tbl.lineno}", "table deletes exactly STRIP_CONTROL_CODES", "the translate table does not delete exactly the listed control codes")
 
 
-RULES = [r5_0, r5_1, r5_2, r5_3, r5_4, r5_5]
+def r5_6(ctx):
+    ctx.rule("R5.6", "tab stops (expand_tabs equals str.expandtabs per line): the column counter is congruent to the column modulo tab_size at every tab - it is advanced only in the tab branch, by the part's length and then by the spaces inserted, with spaces = tab_size - ((pos - 1) % tab_size) - 1; any other update of the counter must be a reset to 0 at the start of a line")
+    f = ctx.repo.fn("text:Text.expand_tabs")
+    m = f.module
+    # the counter: the name used in the `% tab_size` expression
+    mods = [x for x in walk_local(f.node) if isinstance(x, ast.BinOp) and isinstance(x.op, ast.Mod) and norm(x.right) == "tab_size"]
+    if len(mods) != 1:
+        raise AnalysisError(f"expand_tabs: expected one `% tab_size` expression, found {len(mods)}")
+    md = mods[0]
+    names = [n.id for n in ast.walk(md.left) if isinstance(n, ast.Name)]
+    if len(names) != 1:
+        raise AnalysisError("expand_tabs: cannot identify the column counter")
+    pos = names[0]
+    sp_assign = None
+    cur = m.parent_of.get(md)
+    while cur is not None and not isinstance(cur, ast.stmt):
+        cur = m.parent_of.get(cur)
+    sp_assign = cur
+    ok = isinstance(sp_assign, ast.Assign) and norm(sp_assign.value) == f"tab_size - ({pos} - 1) % tab_size - 1"
+    ctx.check(ok, f.fq, norm(sp_assign) if sp_assign is not None else "?", f"{m.relpath}:{md.lineno}", "spaces to the next tab stop = tab_size - ((pos - 1) % tab_size) - 1 (pos already counts the tab's own cell)",
+              f"the number of spaces inserted for a tab is `{norm(sp_assign.value) if isinstance(sp_assign, ast.Assign) else '?'}`, not tab_size - (({pos} - 1) % tab_size) - 1")
+    spaces = norm(sp_assign.targets[0]) if isinstance(sp_assign, ast.Assign) else "spaces"
+    # the tab branch
+    tab_if = None
+    for x in walk_local(f.node):
+        if isinstance(x, ast.If) and "endswith('\\t')" in norm(x.test):
+            tab_if = x
+    if tab_if is None:
+        raise AnalysisError("expand_tabs: tab branch not found")
+    updates = [x for x in walk_local(f.node) if (isinstance(x, ast.AugAssign) and norm(x.target) == pos) or (isinstance(x, ast.Assign) and any(norm(t) == pos for t in x.targets))]
+    in_tab = set()
+    for b in ast.walk(ast.Module(body=tab_if.body, type_ignores=[])):
+        in_tab.add(id(b))
+    seq = [norm(u) for u in updates if id(u) in in_tab]
+    ok = seq == [f"{pos} += len(part)", f"{pos} += {spaces}"]
+    ctx.check(ok, f.fq, " ; ".join(seq), f"{m.relpath}:{tab_if.lineno}", "in the tab branch the counter advances by the part's length, then by the inserted spaces (so it is a multiple of tab_size after every tab)",
+              f"in the tab branch the counter is updated by {seq}: after a tab it is no longer at a tab stop")
+    for u in updates:
+        if id(u) in in_tab:
+            continue
+        where = f"{m.relpath}:{u.lineno}"
+        if isinstance(u, ast.Assign) and norm(u.value) == "0":
+            continue  # initialisation / reset
+        ctx.violation(f.fq, norm(u), where, f"`{norm(u)}` advances the column counter outside the tab branch without resetting it at the start of each line: the counter keeps counting across newlines, so tabs on later lines expand to the wrong number of spaces (differs from str.expandtabs)")
+    ctx.check(any(isinstance(u, ast.Assign) and norm(u.value) == "0" for u in updates), f.fq, f"{pos} = 0", f.where, "counter starts at column 0", "the column counter is never initialised to 0")
+    # the tab itself becomes one space, same length
+    ok = "part._text = [part.plain[:-1] + ' ']" in norm(f.node)
+    ctx.check(ok, f.fq, "part._text = [part.plain[:-1] + ' ']", f.where, "the tab character itself is replaced by one space", "the tab character is not replaced by exactly one space")
+
+
+def r5_7(ctx):
+    ctx.rule("R5.7", "no shared span lists and no zero-length negative slices: a span list handed to a Text (spans= argument, store to _spans) is a fresh list, never another Text's own list; a slice `x[:-k]` with a non-constant k in the text modules is dominated by a test that k is positive (k == 0 would empty the string)")
+    n = 0
+    for ms in ("text", "containers", "highlighter", "markup", "ansi"):
+        m = ctx.repo.mod(ms)
+        seen = set()
+        for f in m.functions.values():
+            if id(f) in seen or m.in_main_guard(f.node):
+                continue
+            seen.add(id(f))
+            g = None
+            for x in walk_local(f.node):
+                # (1) aliasing of span lists
+                src = None
+                if isinstance(x, ast.Call) and norm(x.func).split(".")[-1] in ("Text", "_Text", "cls"):
+                    for k in x.keywords:
+                        if k.arg == "spans":
+                            src = k.value
+                elif isinstance(x, ast.Assign) and any(isinstance(t, ast.Attribute) and t.attr == "_spans" for t in x.targets):
+                    src = x.value
+                if src is not None:
+                    n += 1
+                    shared = isinstance(src, ast.Attribute) and src.attr in ("_spans", "spans")
+                    fresh_param = f.name == "__init__" and norm(src) in ("spans or []",)
+                    ctx.check(not shared, f.fq, short(x), f"{m.relpath}:{x.lineno}", "span list is a fresh list" if not fresh_param else "constructor adopts the caller's list (callers must pass a fresh one)",
+                              f"`{short(x)}` hands a Text the span list `{norm(src)}` of another Text: both objects then share one list, so styling or trimming one changes the styles of the other's characters")
+                # (2) x[:-k]
+                if isinstance(x, ast.Subscript) and isinstance(x.slice, ast.Slice) and x.slice.lower is None and isinstance(x.slice.upper, ast.UnaryOp) and isinstance(x.slice.upper.op, ast.USub):
+                    k = x.slice.upper.operand
+                    if isinstance(k, ast.Constant):
+                        continue
+                    n += 1
+                    if g is None:
+                        g = cfgmod.build(f.node)
+                    st = x
+                    while not isinstance(st, ast.stmt):
+                        st = m.parent_of[st]
+                    ok = False
+                    kn = norm(k)
+                    for nid in g.nodes_of(st):
+                        for t, v in g.branch_facts(nid):
+                            tt = norm(t)
+                            if v is True and tt in (kn, f"{kn} > 0", f"{kn} >= 1", f"0 < {kn}"):
+                                ok = True
+                            if v is False and tt in (f"not {kn}", f"{kn} <= 0", f"{kn} == 0", f"{kn} < 1"):
+                                ok = True
+                    ctx.check(ok, f.fq, short(x), f"{m.relpath}:{x.lineno}", f"`{kn}` is known positive where `{short(x)}` is taken",
+                              f"`{short(x)}` removes the last `{kn}` characters, but nothing guarantees `{kn}` > 0: for 0 the slice is `[:-0]` == `[:0]`, i.e. the whole string (and its styles) is removed instead of nothing")
+    ctx.floor(n, 2, "span-list hand-overs / negative slices")
+
+
+RULES = [r5_0, r5_1, r5_2, r5_3, r5_4, r5_5, r5_6, r5_7]
